@@ -48,6 +48,14 @@ CHECKS["C14"] = ("exploration",
     "generated option sets; every matrix cell and every vocabulary entry compared with the parent class.",
     "DESIGN.md §3 C14")
 
+CHECKS["C13"] = ("exploration",
+    "runtime monitors: round-trip oracle with an independent function table; recording regressor probe proving "
+    "what the inner model was trained on; differential against the plain classifier for equivariant learners",
+    "All predefined names on generated targets (NaN, both shapes); every random_state of a sweep on five label "
+    "domains; a probe regressor records the target/weights it receives; predictions, probability columns and "
+    "classes_ are compared with the plain classifier and with each other.",
+    "DESIGN.md §3 C13")
+
 PENDING = {}
 
 
